@@ -378,3 +378,23 @@ CHECKS["C19"] = {
         "hierarchies whose weights are all zero under one non-terminal are excluded (normalisation undefined)",
     ],
 }
+
+CHECKS["C09"] = {
+    "title": "operators and steps never modify their inputs",
+    "run": std_run,
+    "models": [
+        {"module": "MC_C09", "cfg": "MC_C09_allocate.cfg", "workers": 8},
+        {"module": "MC_C09", "cfg": "MC_C09_writeinplace.cfg", "workers": 4, "expect_violation": "HeapAppendOnly is violated"},
+    ],
+    "drivers": [{"module": "harness.drv_c09", "trace": "Trace_C09"}],
+    "shards": {"quick": 4, "thorough": 14},
+    "rule": "one trace per (grammar, representation, operator chain or step composition): structural snapshots "
+            "(program with all gengy_* labels and synthesis contexts, genes, cached fitness entries, phenotype cache) of "
+            "the inputs and outputs of every call, and of EVERY object ever seen every 10 operations and at the end",
+    "assumptions": [
+        "object identity = Python identity, numbered by first appearance with strong references held",
+        "Individual.metadata['generation'] (written by Population, not by an operator) is not part of the snapshot",
+        "offspring are mapped / evaluated after each operation, as a search does, so that writes caused by mapping "
+        "an offspring that shares structure with its parent are observed",
+    ],
+}
